@@ -23,8 +23,12 @@ func TryRecv[T any](ch <-chan T) (T, bool, bool) {
 	}
 	pumpWatchers()
 	pumpTimers()
+	chanTagBack(chanID(ch))
 	select {
 	case v, ok := <-ch:
+		if ok {
+			chanTagPop(chanID(ch))
+		}
 		chanWake()
 		return v, ok, true
 	default:
@@ -34,6 +38,7 @@ func TryRecv[T any](ch <-chan T) (T, bool, bool) {
 	}
 	if m := mailTake(chanID(ch)); m != nil {
 		chanWake()
+		mailTag(m)
 		v, _ := m.v.(T)
 		return v, true, true
 	}
@@ -57,6 +62,7 @@ func TrySend[T any](ch chan<- T, v T) bool {
 	if cap(ch) > 0 {
 		select {
 		case ch <- v:
+			chanTagPush(*(*unsafe.Pointer)(unsafe.Pointer(&ch)))
 			chanWake()
 			return true
 		default:
@@ -68,7 +74,9 @@ func TrySend[T any](ch chan<- T, v T) bool {
 	if !receiverWaiting(id) {
 		return false
 	}
-	mailPut(id, v)
+	m := mailPut(id, v)
+	m.tag = s.cur.Tag
+	s.tagAcquire(m.tag)
 	chanWake()
 	return true
 }
@@ -116,28 +124,138 @@ func SelectPark() {
 }
 
 type simTimer struct {
-	at    int64
-	ch    chan time.Time
-	fired bool
+	at      int64
+	ch      chan time.Time
+	fired   bool
+	stopped bool
+	period  int64  // ticker: re-armed after every firing
+	fn      func() // AfterFunc: run in a task of its own when due
+	inc     int
 }
 
 var simTimers []*simTimer
+
+//go:norace
+func newSimTimer(d time.Duration) *simTimer {
+	s := S
+	t := &simTimer{at: s.now + int64(d), ch: make(chan time.Time, 1), inc: s.Inc}
+	if s.cur != nil {
+		t.inc = s.cur.Inc
+	}
+	simTimers = append(simTimers, t)
+	return t
+}
 
 // After replaces time.After: a channel that delivers once the simulated clock reaches now+d.
 //
 //go:norace
 func After(d time.Duration) <-chan time.Time {
-	s := S
-	if s == nil {
+	if S == nil {
 		return time.After(d)
 	}
-	t := &simTimer{at: s.now + int64(d), ch: make(chan time.Time, 1)}
-	simTimers = append(simTimers, t)
-	return t.ch
+	return newSimTimer(d).ch
+}
+
+// Timer replaces time.Timer (NewTimer, AfterFunc).
+type Timer struct {
+	C    <-chan time.Time
+	st   *simTimer
+	real *time.Timer
+}
+
+//go:norace
+func NewTimer(d time.Duration) *Timer {
+	if S == nil {
+		rt := time.NewTimer(d)
+		return &Timer{C: rt.C, real: rt}
+	}
+	st := newSimTimer(d)
+	return &Timer{C: st.ch, st: st}
+}
+
+//go:norace
+func AfterFunc(d time.Duration, f func()) *Timer {
+	if S == nil {
+		return &Timer{real: time.AfterFunc(d, f)}
+	}
+	st := newSimTimer(d)
+	st.fn = f
+	st.ch = nil
+	return &Timer{st: st}
+}
+
+//go:norace
+func (t *Timer) Stop() bool {
+	if t.real != nil {
+		return t.real.Stop()
+	}
+	active := !t.st.fired && !t.st.stopped
+	t.st.stopped = true
+	return active
+}
+
+//go:norace
+func (t *Timer) Reset(d time.Duration) bool {
+	if t.real != nil {
+		return t.real.Reset(d)
+	}
+	active := !t.st.fired && !t.st.stopped
+	t.st.at = S.now + int64(d)
+	t.st.fired, t.st.stopped = false, false
+	return active
+}
+
+// Ticker replaces time.Ticker (NewTicker, Tick).
+type Ticker struct {
+	C    <-chan time.Time
+	st   *simTimer
+	real *time.Ticker
+}
+
+//go:norace
+func NewTicker(d time.Duration) *Ticker {
+	if d <= 0 {
+		panic("non-positive interval for NewTicker")
+	}
+	if S == nil {
+		rt := time.NewTicker(d)
+		return &Ticker{C: rt.C, real: rt}
+	}
+	st := newSimTimer(d)
+	st.period = int64(d)
+	return &Ticker{C: st.ch, st: st}
+}
+
+//go:norace
+func Tick(d time.Duration) <-chan time.Time {
+	if d <= 0 {
+		return nil
+	}
+	return NewTicker(d).C
+}
+
+//go:norace
+func (t *Ticker) Stop() {
+	if t.real != nil {
+		t.real.Stop()
+		return
+	}
+	t.st.stopped = true
+}
+
+//go:norace
+func (t *Ticker) Reset(d time.Duration) {
+	if t.real != nil {
+		t.real.Reset(d)
+		return
+	}
+	t.st.period = int64(d)
+	t.st.at = S.now + int64(d)
+	t.st.fired, t.st.stopped = false, false
 }
 
 // pumpTimers fires due timers from the context of the task that is about to look at its channels (no
-// scheduler -> task happens-before edge is created).
+// scheduler -> task happens-before edge is created). AfterFunc timers are started by the scheduler (fireFuncTimers).
 //
 //go:norace
 func pumpTimers() {
@@ -146,22 +264,53 @@ func pumpTimers() {
 		return
 	}
 	for _, t := range simTimers {
-		if !t.fired && t.at <= s.now {
+		if t.fn != nil || t.stopped || t.fired || t.at > s.now {
+			continue
+		}
+		select {
+		case t.ch <- time.Unix(0, s.Cfg.EpochNs+s.now).UTC():
+		default: // a ticker whose last tick was not consumed drops this one, as the real one does
+		}
+		if t.period > 0 {
+			t.at += t.period
+			if t.at <= s.now {
+				t.at = s.now + t.period
+			}
+		} else {
 			t.fired = true
-			t.ch <- time.Unix(0, s.Cfg.EpochNs+s.now).UTC()
 		}
 	}
 }
 
-// nextTimer returns the earliest pending timer deadline (-1: none).
+// fireFuncTimers starts a task for every AfterFunc timer that is due (scheduler context).
 //
 //go:norace
-func nextTimer() int64 {
+func (s *Sim) fireFuncTimers() {
+	for _, t := range simTimers {
+		if t.fn != nil && !t.stopped && !t.fired && t.at <= s.now {
+			t.fired = true
+			fn := t.fn
+			nt := s.newTask("timerfunc", t.inc, 0, fn)
+			go taskMain(s, nt)
+		}
+	}
+}
+
+// nextTimer returns the earliest pending timer deadline (-1: none); funcOnly restricts it to AfterFunc timers.
+//
+//go:norace
+func nextTimerOf(funcOnly bool) int64 {
 	next := int64(-1)
 	for _, t := range simTimers {
-		if !t.fired && (next < 0 || t.at < next) {
+		if t.fired || t.stopped || (funcOnly && t.fn == nil) {
+			continue
+		}
+		if next < 0 || t.at < next {
 			next = t.at
 		}
 	}
 	return next
 }
+
+//go:norace
+func nextTimer() int64 { return nextTimerOf(false) }
